@@ -134,20 +134,105 @@ def level_a(rep, tier, seed, n=None):
     return info, samples
 
 
+GRID_CASES = {"quick": 12, "thorough": 160}
+GRID_SCHEDULES = {"quick": 3, "thorough": 6}
+
+
+def _grid_job(arg):
+    """One configuration + fault plan: the serial reference once, then several seeded
+    schedules of the simulated-parallel run, each compared with the reference."""
+    import os
+    import shutil
+    import warnings
+
+    from hsim import engines, gridsim, scenarios
+
+    warnings.simplefilter("ignore")
+    verif_seed, index, nsched, quick = arg
+    case = scenarios.c13_grid_case(verif_seed, index, quick=quick)
+    sc = case["scenario"]
+    d = engines.scratch_dir()
+    out = []
+    try:
+        ref_path = os.path.join(d, "serial.nc")
+        ref = gridsim.run(engines.serial_variant(sc), ref_path)
+        for k in range(nsched):
+            s = dict(sc, sched_seed=case["seed"] * 16 + k)
+            if k > 0:
+                s["np"] = 2 + (k + sc["np"]) % 3
+            r = engines.case_c13_grid({"scenario": s}, ref_path=ref_path, ref_res=ref)
+            r["index"] = index
+            out.append(r)
+    finally:
+        shutil.rmtree(d, ignore_errors=True)
+    return out
+
+
+def level_b(rep, tier, seed):
+    t0 = time.time()
+    n = GRID_CASES[tier]
+    args = [(seed, i, GRID_SCHEDULES[tier], tier == "quick") for i in range(n)]
+    res = batch.map_chunks(_grid_job, args, limit_s=1500)
+    runs = [r for job in res for r in job]
+    cnt = collections.Counter()
+    probes = collections.Counter()
+    sigs = set()
+    sim_time = 0
+    samples = []
+    for r in runs:
+        sc = r["scenario"]
+        fam = sc["family"] + ("" if sc["family"] != "tok" else ":" + sc["geometry"])
+        cnt[f"{fam}|{sc['fault_kind']}|serial={r['serial_outcome'][0]}"
+            f"|par={r['parallel_outcome'][0]}"] += 1
+        sim_time += r["sim_time_us"] or 0
+        if r["signature"]:
+            sigs.add(r["signature"])
+        for src in ("buggify", "clock"):
+            for k, v in (r.get(src) or {}).items():
+                if isinstance(v, (int, float)):
+                    probes[f"{src}.{k}"] += v
+        if r["parallel_outcome"][0] == "raised" and r["serial_outcome"][0] == "raised":
+            probes["both_raised"] += 1
+        if r["violation"]:
+            key = (f"GRID:{r['violation']['class']}:{fam}:fault={sc['fault_kind']}")
+            rep.violation(key, r, text=r["violation"]["detail"])
+        elif len(samples) < 2:
+            samples.append({"scenario": {k: v for k, v in sc.items() if k != "choices"},
+                            "serial_outcome": r["serial_outcome"],
+                            "parallel_outcome": r["parallel_outcome"],
+                            "scheduler_steps": r["steps"]})
+    wall = time.time() - t0
+    say(f"[C13/B] {len(runs)} whole-grid runs ({n} configurations) in {wall:.1f}s; "
+        f"distinct schedules={len(sigs)}")
+    for k in sorted(cnt):
+        say(f"[C13/B]   {k}: {cnt[k]}")
+    info = {"runs": len(runs), "configurations": n, "outcomes": dict(cnt),
+            "distinct_signatures": len(sigs), "sim_time_s": sim_time / 1e6,
+            "probes": {k: round(v, 3) for k, v in probes.items()},
+            "runs_per_hour": int(len(runs) / max(wall, 1e-9) * 3600)}
+    return info, samples
+
+
 def main(tier, seed):
     core.assert_repo_import()
     rep = Report("C13", tier, seed)
     info_a, samples = level_a(rep, tier, seed)
+    info_b, samples_b = level_b(rep, tier, seed)
+    samples = samples[:2] + samples_b
     coverage = {
-        "evaluations": info_a["runs"],
-        "distinct_nontrivial": info_a["distinct_signatures"],
+        "evaluations": info_a["runs"] + info_b["runs"],
+        "distinct_nontrivial": info_a["distinct_signatures"] + info_b["distinct_signatures"],
         "rule": "one evaluation = one simulated run of the real ParallelMap on procsim "
                 "(1-4 calls, 0-40 tasks, 2-6 workers, seeded delays and fault plan). "
                 "Non-trivial = at least two results crossed the result queue; distinct = "
                 "distinct (task->worker assignment, completion order) signature over all "
-                "calls of the run.",
+                "calls of the run. Level B adds whole-grid runs (real mesh generation with "
+                "np 2-4 on procsim, optional content-addressed refine failures/timeouts) "
+                "each compared bit for bit with the serial grid of the same inputs; "
+                "distinct there = distinct signature over every queue message of the build.",
         "samples": samples,
         "level_A": info_a,
+        "level_B": info_b,
     }
     return rep.finish(
         "exploration", coverage,
@@ -161,5 +246,6 @@ def main(tier, seed):
             "real": ["hypnotoad.utils.parallel_map.ParallelMap (__init__, __call__, "
                      "worker_run, __del__)", "dill", "multiprocessing.reduction.ForkingPickler"],
             "stub": ["multiprocessing.Queue", "multiprocessing.Process", "task functions "
-                     "(synthetic, level A)"]}},
+                     "(synthetic, level A only; level B runs the real mesh tasks)",
+                     "func_timeout thread+clock (inline / simulated clock)", "uuid/date/git"]}},
     )
